@@ -1,7 +1,7 @@
 ---------------------------- MODULE MC_Grading ----------------------------
 EXTENDS Grading
 AllScripts == {"plain", "override", "override_twice", "suppress", "crashing", "formatter", "mocks", "sections",
-               "pools", "partial", "groups", "tifa_types", "classhook", "raiser_a", "raiser_b"}
+               "pools", "partial", "groups", "tifa_types", "classhook", "raiser_a", "raiser_b", "qpool"}
 QuickScripts == {"plain", "override_twice", "suppress", "crashing", "sections", "pools", "mocks"}
 \* what each script of bind/grading.py dirties
 W == [s \in AllScripts |->
@@ -14,6 +14,7 @@ W == [s \in AllScripts |->
           [] s \in {"mocks", "raiser_a", "raiser_b"} -> {"feedback", "tooldata", "sandbox_mocks"}
           [] s = "sections" -> {"feedback", "tooldata", "sections", "hooks"}
           [] s = "pools" -> {"feedback", "tooldata", "pools"}
+          [] s = "qpool" -> {"feedback", "tooldata", "question_pools"}      \* the running count of question pools
           [] s = "partial" -> {"feedback", "tooldata", "hiddens"}
           [] s = "groups" -> {"feedback", "tooldata"}
           [] s = "tifa_types" -> {"feedback", "tooldata", "builtin_modules"}
@@ -32,7 +33,7 @@ R == [s \in AllScripts |-> Slots \ {"class_hooks"}]
 \* TIFA's reset rebuilds the builtin module types.
 CodeClearResets == {"feedback", "suppressions", "hiddens", "hooks", "tooldata", "formatter", "overrides",
                     "sandbox_mocks", "tracer", "sections", "builtin_modules", "pools",
-                    "type_tables"}     \* every type VALUE copies its class' method table (Type.__init__), so nothing outlives the analysis
-PinnedClearResets == CodeClearResets \ {"pools"}
+                    "type_tables", "question_pools"}     \* every type VALUE copies its class' method table (Type.__init__), so nothing outlives the analysis
+PinnedClearResets == CodeClearResets \ {"pools", "question_pools"}
 SharedTables == CodeClearResets \ {"type_tables"}
 =============================================================================
